@@ -91,6 +91,11 @@ ZAlign == [q \in 1..14 |->
 ZOpen == <<TSeq(<<Comp(I07, "man", <<>>), Comp(TStr("ia5", NoSz), "opt", <<>>), Comp(I07, "opt", <<>>)>>, 1, TRUE),
            TChoice(<<I07, TStr("ia5", NoSz)>>, 1, TRUE)>>
 
+\* more than 64 presence flags in the preamble, and more than 64 extension additions (their number then takes the
+\* ">= 64" form of the normally small number, 11.6.2); values: everything present / absent (Rep) and a few patterns (ExtraVals)
+ZWide == <<TSeq([i \in 1..66 |-> Comp(TBool, "opt", <<>>)], 66, FALSE),
+           TSeq(<<Comp(I07, "man", <<>>)>> \o [i \in 1..65 |-> Comp(TBool, "opt", <<>>)], 1, TRUE)>>
+
 \* mixed types: pseudo-randomly composed trees (depth <= 3) of the constructors - SEQUENCE / SET shapes with OPTIONAL,
 \* DEFAULT and extension additions, CHOICE with extension alternatives, lists, and leaves of every class - so that
 \* combinations of features meet that the systematic families keep apart.  Deterministic: Pick is a fixed mixing function.
@@ -125,7 +130,7 @@ MixType(q, d) ==
 NMix == IF N <= 3 THEN 60 ELSE 300
 ZMix == [q \in 1..NMix |-> MixType(q + 100, 0)]
 
-Zoo == ZInts \o <<TBool, TNull>> \o ZEnums \o ZOcts \o ZBits \o ZStrs \o ZLists \o ZShapes \o ZClassShapes \o ZChoices \o ZNested \o ZAlign \o ZOpen \o ZMix \o ZBig
+Zoo == ZInts \o <<TBool, TNull>> \o ZEnums \o ZOcts \o ZBits \o ZStrs \o ZLists \o ZShapes \o ZClassShapes \o ZChoices \o ZNested \o ZAlign \o ZOpen \o ZWide \o ZMix \o ZBig
 IsBig(i) == i > Len(Zoo) - Len(ZBig)
 
 (***************************************************************************)
@@ -229,6 +234,9 @@ ExtraVals(t) ==
              ELSE <<>>)
     [] t.k = "seq" /\ Len(t.comps) = 3 /\ t.comps[2].t.k = "bits" /\ t.comps[2].t.sz.c = "sz" /\ t.comps[2].t.sz.ub = 33 ->
          [j \in 1..17 |-> << <<t.comps[1].t.con.ub>>, <<Ones(16 + j)>>, <<255>> >>]
+    [] t = ZWide[1] -> <<[i \in 1..66 |-> IF i \in {1, 64, 65, 66} THEN <<TRUE>> ELSE <<>>], [i \in 1..66 |-> IF i = 65 THEN <<FALSE>> ELSE <<>>]>>
+    [] t = ZWide[2] -> <<[i \in 1..66 |-> IF i \in {1, 2, 65, 66} THEN <<IF i = 1 THEN 5 ELSE TRUE>> ELSE <<>>],
+                         [i \in 1..66 |-> IF i \in {1, 2} THEN <<IF i = 1 THEN 2 ELSE FALSE>> ELSE <<>>]>>
     [] t = ZOpen[1] -> [j \in 1..12 |-> << <<5>>, <<ListOfLen(t.comps[2].t, 136 + j)>>, <<6>> >>]
     [] t = ZOpen[2] -> [j \in 1..12 |-> [i |-> 1, v |-> ListOfLen(t.alts[2], 136 + j)]]
     [] OTHER -> <<>>
@@ -249,7 +257,7 @@ Values(t) ==
                             \o (IF t.cs = "utf8" \/ n = 0 THEN <<>>
                                 ELSE [j \in 1..Len(ps) |-> [good EXCEPT ![ps[j]] = BadChar(t.cs)]]
                                      \o [j \in 1..Len(BadChars(t.cs)) |-> [good EXCEPT ![ps[(j % Len(ps)) + 1]] = BadChars(t.cs)[j]]])
-    [] t.k = "seq"    -> SeqVals(t)
+    [] t.k = "seq"    -> IF Len(t.comps) > 8 THEN Rep(t) ELSE SeqVals(t)       \* (no 2^66 patterns)
     [] t.k = "choice" -> Concat([a \in 1..Len(t.alts) |->
                                    LET r == Rep(t.alts[a]) IN [j \in 1..Len(r) |-> [i |-> a - 1, v |-> r[j]]]])
 =============================================================================
